@@ -37,7 +37,12 @@ ScopeKey ==
     S4 |-> [n |-> "sn1", v |-> "sv1", u |-> "su2", a |-> "sa1"],   \* schema URL differs
     S5 |-> [n |-> "sn1", v |-> "sv1", u |-> "su1", a |-> "sa2"],   \* attributes differ
     S6 |-> [n |-> "sn2", v |-> "sv1", u |-> "su1", a |-> "sa1"],   \* name differs
-    S7 |-> [n |-> "sn1", v |-> "sv0", u |-> "su0", a |-> "sa0"] ]  \* name only
+    S7 |-> [n |-> "sn1", v |-> "sv0", u |-> "su0", a |-> "sa0"],   \* name only
+    \* partially empty scopes: no name, but a version / a schema URL / attributes / all three
+    S8  |-> [n |-> "sn0", v |-> "sv1", u |-> "su0", a |-> "sa0"],
+    S9  |-> [n |-> "sn0", v |-> "sv0", u |-> "su1", a |-> "sa0"],
+    S10 |-> [n |-> "sn0", v |-> "sv0", u |-> "su0", a |-> "sa1"],
+    S11 |-> [n |-> "sn0", v |-> "sv1", u |-> "su1", a |-> "sa1"] ]
 
 (* Zipkin has no groups: one flat list of span models *)
 ZRes == [a |-> "-", u |-> "-"]
